@@ -83,6 +83,7 @@ type heldResult struct {
 }
 
 func runC09(c *Ctx) {
+	defer withDisturb(c)()
 	runPinned(c, "C09")
 	var held []heldResult
 	n := int64(120000)
